@@ -141,11 +141,12 @@ def run_patch_corpora(prop: str, repo: Repo) -> dict:
         for d in sorted(os.listdir(sdir)):
             if d.startswith(prop + "-") and os.path.isfile(os.path.join(sdir, d, "patch.diff")):
                 jobs.append((prop, os.path.join(sdir, d, "patch.diff"), repo.root, True))
-    bdir = os.path.join(VERIF_ROOT, "benign")
-    if os.path.isdir(bdir):
-        for f in sorted(os.listdir(bdir)):
-            if f.endswith(".diff"):
-                jobs.append((prop, os.path.join(bdir, f), repo.root, False))
+    for sub in ("benign", "neutral"):
+        bdir = os.path.join(VERIF_ROOT, sub)
+        if os.path.isdir(bdir):
+            for f in sorted(os.listdir(bdir)):
+                if f.endswith(".diff"):
+                    jobs.append((prop, os.path.join(bdir, f), repo.root, False))
     res = []
     if jobs:
         with ProcessPoolExecutor(max_workers=min(16, len(jobs))) as ex:
